@@ -115,7 +115,7 @@ Fixpoint lspec_run (l : list nat) (ops : list bl_op) : list bl_obs :=
 (* Queues of tens of thousands of entries cannot be replayed through [spec_run]
    inside Coq (unary task tokens, quadratic).  For histories of one fixed shape
      add task i with rank [f i] for i = 0 .. n-1;  re-add every i with
-     i mod q = 1 (ascending) with rank [g i];  remove every i with i mod r = 2;
+     i mod q = 1 (ascending) with rank [g i];  remove every i with i mod r = 2 (or every other i);
      len;  pop until IndexError;  pop(default), peek(default), len
    the property is stated as a checker over what the drain returned: exactly the
    live tasks, each served before the next one (higher rank, or equal rank and
@@ -136,7 +136,7 @@ Definition rank_of (f : big_rank) (i : N) : Z :=
   | RMod m a => Z.of_N ((i * a) mod m)
   end.
 
-Record big_params := mkBig { bn : N; bf : big_rank; bq : N; bg : big_rank; br : N }.
+Record big_params := mkBig { bn : N; bf : big_rank; bq : N; bg : big_rank; br : N; binv : bool }.
 
 Record big_obs := mkBigObs {
   o_len : N;             (* len(q) before draining *)
@@ -145,7 +145,10 @@ Record big_obs := mkBigObs {
 }.
 
 Definition readded (p : big_params) (i : N) : bool := negb (bq p =? 0) && (i mod bq p =? 1).
-Definition removed (p : big_params) (i : N) : bool := negb (br p =? 0) && (i mod br p =? 2).
+(* binv = false: every i with i mod r = 2 is removed; binv = true: every i EXCEPT those (tombstones then
+   outnumber the live entries by thousands) *)
+Definition removed (p : big_params) (i : N) : bool :=
+  negb (br p =? 0) && xorb (i mod br p =? 2) (binv p).
 Definition final_rank (p : big_params) (i : N) : Z :=
   if readded p i then rank_of (bg p) i else rank_of (bf p) i.
 Definition final_seq (p : big_params) (i : N) : N := if readded p i then bn p + i else i.
